@@ -229,21 +229,23 @@ impl TimerCase {
             self.slots[k].sleep = None;
         }
     }
+    // is_elapsed / reset read the clock: their events are placed where they BEGIN
     fn elapsed(&mut self, k: usize) {
         if k < self.slots.len() && self.slots[k].sleep.is_some() {
-            let t0 = self.sh.now();
+            let (pos, t0) = self.sh.ev(|_| String::new());
             let b = self.slots[k].sleep.as_ref().unwrap().is_elapsed();
-            self.sh.ev(|t| format!("E {} {} {} {}", k, t0, t, b as u8));
+            let t1 = self.sh.now();
+            self.sh.log.lock().unwrap()[pos] = format!("E {} {} {} {}", k, t0, t1, b as u8);
         }
     }
     fn reset(&mut self, k: usize) {
         if k < self.slots.len() && self.slots[k].sleep.is_some() {
-            let t0 = self.sh.now();
+            let (pos, t0) = self.sh.ev(|_| String::new());
             self.slots[k].sleep.as_mut().unwrap().reset();
             let t1 = self.sh.now();
             let dur_ns = if self.slots[k].dur_us < 0 { 86_400_000_000_000 } else { self.slots[k].dur_us * 1000 };
             let dl = self.deadline(k, t0 + dur_ns);
-            self.sh.ev(|t| format!("R {} {} {} {}", k, t0, t.max(t1), dl));
+            self.sh.log.lock().unwrap()[pos] = format!("R {} {} {} {}", k, t0, t1, dl);
         }
     }
     /// waits until token `tok` has been woken; false = gave up
@@ -431,6 +433,7 @@ struct Scripted {
     inner: Option<Pin<Box<Sleep>>>,
     stall_us: i128,
     value: i128,
+    tag: usize, // added to the stage numbers in the events (distinguishes executor tasks)
 }
 
 impl Future for Scripted {
@@ -447,7 +450,7 @@ impl Future for Scripted {
 
 impl Scripted {
     fn fwd(&self, cx: &Context<'_>, flag: Option<Arc<AtomicBool>>) -> Waker {
-        Waker::from(Arc::new(FwdWake { sh: self.sh.clone(), outer: cx.waker().clone(), stage: self.i, flag }))
+        Waker::from(Arc::new(FwdWake { sh: self.sh.clone(), outer: cx.waker().clone(), stage: self.tag + self.i, flag }))
     }
     fn step(&mut self, cx: &mut Context<'_>) -> Poll<i128> {
         loop {
@@ -488,14 +491,14 @@ impl Scripted {
                 Stage::TimerSleep(us) => {
                     if self.inner.is_none() {
                         self.inner = Some(Box::pin(self.timer.sleep(dur_of(us))));
-                        let st = self.i;
+                        let st = self.tag + self.i;
                         self.sh.ev(|t| format!("Ts {} {} {}", st, t, us * 1000));
                     }
                     let w = self.fwd(cx, None);
                     let mut icx = Context::from_waker(&w);
                     match self.inner.as_mut().unwrap().as_mut().poll(&mut icx) {
                         Poll::Ready(()) => {
-                            let st = self.i;
+                            let st = self.tag + self.i;
                             self.sh.ev(|t| format!("Te {} {}", st, t));
                             self.inner = None;
                             self.i += 1;
@@ -519,6 +522,7 @@ fn scripted(sh: &Arc<Shared>, timer: TimerHandle, stages: &str, stall_us: i128, 
         inner: None,
         stall_us,
         value,
+        tag: 0,
     }
 }
 
@@ -567,7 +571,8 @@ fn run_ex(v: &[&str]) -> String {
     let h = exec.handle();
     let mut handles = Vec::new();
     for (i, w) in v.iter().enumerate() {
-        let fut = scripted(&sh, driver.handle(), w, 0, i as i128);
+        let mut fut = scripted(&sh, driver.handle(), w, 0, i as i128);
+        fut.tag = 100 * i;
         let sh2 = sh.clone();
         sh.ev(|t| format!("Sp {} {}", i, t));
         handles.push(h.spawn(async move {
